@@ -58,6 +58,9 @@ def classify(nn, site, atom, pol, dinfo):
             if is_call(x, "builtins.len") and is_const(y, 1) and nn.coll_space(q, x[2][0]) is not None:
                 if (op in ("==", "is")) != pol:
                     return ("struct", "singleton-skip")
+            if is_call(x, "builtins.len") and is_const(y, 0) and nn.coll_space(q, x[2][0]) is not None:
+                if (op in ("==", "is")) != pol:
+                    return ("struct", "empty-skip")        # an empty candidate list holds no pair
             if (is_call(x, "builtins.len") and is_call(y, "builtins.len")):
                 return ("lenfilter", (op in ("==", "is")) == pol)
             return ("unknown", "equality test outside the lemma table")
@@ -752,7 +755,8 @@ def check_bfs(r, rule):
     val_ok = strip(e["value"]) == depth.elem
     r.rep.ob(rule, q, key_ok and val_ok, "an unseen neighbour is inserted with the current depth", wh(r, q, e.node), expected="ans[new_seq] = edit_distance", found=f"ans[{show(e['index'], 30)}] = {show(e['value'], 30)}", key="bfs insert")
     asserted = {strip_all(a_["cond"]) for a_ in s.events_of("assert")}
-    gl = [(strip(a), p) for gt, pol in e.ctx.guards if not (pol and strip_all(gt) in asserted) for a, p in lits(gt, pol)]
+    entry = tuple(depth.ctx.guards)
+    gl = [(strip(a), p) for gt, pol in e.ctx.guards if not (pol and strip_all(gt) in asserted) and (gt, pol) not in entry for a, p in lits(gt, pol)]
     unseen = [(a, p) for a, p in gl if head(a) == "cmp" and a[1] in ("in", "notin") and strip(a[2]) == gen.elem and strip(a[3]) == strip(ret)]
     others = [(a, p) for a, p in gl if (a, p) not in unseen]
     ok_guard = len(unseen) == 1 and ((unseen[0][0][1] == "notin") == unseen[0][1]) and not others
@@ -803,7 +807,9 @@ def check_comb_gen(r, rule):
         return undecided(f"loop nest {show(outer.iterable, 40)} / {show(si, 40)} is not range(..) / combinations(.., ..)")
     base, size = strip_all(si[2][0]), strip_all(si[2][1])
     ctx = RFContext()
-    if is_call(base, "builtins.range"):
+    if is_call(base, "builtins.range") and size != strip_all(outer.elem) and len(base[2]) == 1 and strip_all(base[2][0]) == strip_all(lenseq):
+        idiom = "keptpos"          # combinations(range(len(seq)), len(seq) - d): the positions that are kept
+    elif is_call(base, "builtins.range"):
         idiom = "positions"
     elif base == seq:
         idiom = "kept"
@@ -858,7 +864,7 @@ def check_comb_gen(r, rule):
               (head(init) == "set" and tuple(map(strip, init[1])) == (seq,))
     r.rep.ob(rule, q, is_set0, "the variant set starts as {seq} and is a set (0 deletions included, duplicates collapse)", where, expected="set([seq])", found=show(init, 60), key="comb init")
     ok_range = ar[0] and ar[1]
-    if idiom == "kept":
+    if idiom in ("kept", "keptpos"):
         # sizes len(seq) - d must stay non-negative: the bound has to be clipped at len(seq)
         ok_range = ok_range and strip_all(lenseq) in [strip_all(c) for c in clipped]
     r.rep.ob(rule, q, ok_range, "number of deletions ranges over 1..max_edits" + (" (clipped at len(seq) so that the subsequence length stays non-negative)" if idiom == "kept" else ""),
@@ -880,6 +886,11 @@ def check_comb_gen(r, rule):
         okv, why = _is_deletion_variant(s, v, seq, subsets.elem)
         if okv is None:
             return undecided(why)
+    elif idiom == "keptpos":
+        # ''.join(seq[k] for k in kept)
+        arg = strip(v[2][0]) if is_mcall(v, "join") and is_const(strip(strip(v[1])[1]), "") and len(v[2]) == 1 else None
+        okv = arg is not None and head(arg) == "comp" and len(arg[3]) == 1 and not arg[3][0][1] and strip(arg[3][0][0][3]) == subsets.elem and strip_all(arg[2]) == strip_all(("sub", seq, arg[3][0][0]))
+        why = show(v, 80)
     else:
         okv = is_mcall(v, "join") and is_const(strip(strip(v[1])[1]), "") and len(v[2]) == 1 and strip(v[2][0]) == subsets.elem
         why = show(v, 80)
@@ -1070,6 +1081,9 @@ def check_kd(r, rule, modes=None):
             continue
         seen_r.add(rad_m)
         ok, found = _radius_ok(nn, q, rad_m)
+        if ok is None:
+            r.rep.require(False, f"{q}: ball radius {found}; cannot decide [{rule}-R]")
+            continue
         r.rep.ob(rule + "-R", q, ok, f"ball radius is c*max_edits + d with c >= sqrt(2), d >= 0 (lemma A.2: no smaller multiple is sound) [{MODE_NAME[mode]}]", where,
                  expected="r >= sqrt(2) * max_edits", found=found, key=f"kd radius {show(rad_m, 60)}" if not ok else "kd radius")
     # ---- same matrix for tree and query, exact query, p >= 2
@@ -1089,17 +1103,26 @@ def check_kd(r, rule, modes=None):
     if len(trip) != 1:
         raise AnalysisBroken(f"{q}: expected one call to _to_triplets")
     targs = strip(trip[0]["term"])[2]
+    # the rows may be stacked into an array first: np.asarray / np.array / np.stack / np.vstack / list of the row list keep row k at row k
+    while mat is not None and is_call(mat) and head(strip(mat[1])) == "glob" and strip(mat[1])[1] in ("numpy.asarray", "numpy.array", "numpy.stack", "numpy.vstack", "builtins.list", "builtins.tuple") and mat[2]:
+        mat = strip(mat[2][0])
     okm = mat is not None and head(mat) == "comp" and len(mat[3]) == 1 and not mat[3][0][1] and is_call(mat[2], MOD + "_histogram_encode") \
         and strip(strip(mat[2])[2][0]) == mat[3][0][0] and strip_all(mat[3][0][0][3]) == strip_all(targs[0])
-    r.rep.ob(rule + "-CFG", q, okm, "row k of the matrix encodes element k of the container whose positions the workers report", wh(r, q, trip[0].node),
-             expected="[_histogram_encode(x, compression) for x in seqs] with the same seqs passed to _to_triplets", found=show(mat, 90), key="kd matrix rows")
+    if mat is None or head(mat) != "comp":
+        r.rep.require(False, f"{q}: the point matrix {show(mat, 60)} is not a comprehension of encoded rows; cannot decide [{rule}-CFG]")
+    else:
+        r.rep.ob(rule + "-CFG", q, okm, "row k of the matrix encodes element k of the container whose positions the workers report", wh(r, q, trip[0].node),
+                 expected="[_histogram_encode(x, compression) for x in seqs] with the same seqs passed to _to_triplets", found=show(mat, 90), key="kd matrix rows")
     oky = len(targs) > 1 and strip_all(targs[1]) == strip_all(call)
     r.rep.ob(rule + "-CFG", q, oky, "the candidate lists handed to the workers are the unmodified ball-query result", wh(r, q, trip[0].node),
              expected="_to_triplets(seqs, tree.query_ball_point(matrix, ...), ...)", found=show(targs[1], 70) if len(targs) > 1 else "missing", key="kd candidates")
     if okm:
         comp_arg = strip(mat[2])[2][1] if len(strip(mat[2])[2]) > 1 else dict(strip(mat[2])[3]).get("compression")
-        r.rep.ob(rule + "-CFG", q, comp_arg is not None and nn.R._role_of(q, comp_arg) == "COMP", "compression reaches only the encoder", wh(r, q, e.node),
-                 expected="_histogram_encode(x, compression)", found=show(comp_arg, 30), key="kd compression")
+        if comp_arg is not None and nn.R._role_of(q, comp_arg) is None and not is_const(strip(comp_arg)):
+            r.rep.require(False, f"{q}: the API quantity behind the encoder's compression argument {show(comp_arg, 30)} is unknown; cannot decide [{rule}-CFG]")
+        else:
+            r.rep.ob(rule + "-CFG", q, comp_arg is not None and nn.R._role_of(q, comp_arg) == "COMP", "compression reaches only the encoder", wh(r, q, e.node),
+                     expected="_histogram_encode(x, compression)", found=show(comp_arg, 30), key="kd compression")
 
 
 def _radius_ok(nn, q, rad):
@@ -1114,6 +1137,8 @@ def _radius_ok(nn, q, rad):
     rr = ctx.rf(rad)
     kterms = [t for t in walk(strip_all(rad)) if nn.R._role_of(q, t) == "K"]
     found = ctx.show_rf(rr)
+    if not kterms and any(head(t) == "param" and nn.R._role_of(q, t) is None for t in walk(strip_all(rad))):
+        return None, found + "  (the API quantity behind the radius argument is unknown)"
     if kterms and rr.d.is_const():
         kid = [a for a in rr.n.atoms() if ctx.atoms[a] == ("term", strip_all(kterms[0]))]
         if kid:
@@ -1193,7 +1218,8 @@ def check_encoder(r, rule):
             if ok:
                 ce = src[3][0][0]
                 elt = strip(src[2])
-                ok_idx = head(elt) == "sub" and strip(elt[2]) == ce and not any(x == ce for x in walk(elt[1])) and _char_map_ok(nn, q, s, elt[1])
+                # iterating the string itself (not enumerate) carries no position: any function of the letter is a map of the letter only
+                ok_idx = any(x == ce for x in walk(elt)) and not any(head(x) in ("iter", "citer") and x != ce for x in walk(elt))
             r.rep.ob(rule, q, ok, "every character of the sequence is counted once, unguarded", where, expected="np.bincount(map[char] for char in cdr3)", found=show(src, 80), key="enc loop")
             r.rep.ob(rule, q, ok_idx, "the coordinate is chosen by a map of the character only (not of its position)", where, expected="position_map[char]", found=show(src, 80), key="enc map")
             r.rep.ob(rule, q, "weights" not in dict(z[3]) and len(z[2]) == 1, "each character counts exactly 1 (no weights)", where, expected="no weights", found=show(z, 60), key="enc increment")
@@ -1301,6 +1327,9 @@ def check_buckets(r, rule):
                      expected=f"positions in {show(seqs, 30)}", found=f"positions in {show(sp[0], 60)} appended unmapped", key="bucket positions unmapped")
             continue
         sa, sb = nn.idx_space(q, st.a), nn.idx_space(q, st.b)
+        if sa is None or sb is None:
+            r.rep.require(False, f"{q}: cannot type the positions reported in Hamming mode ({show(st.a, 40)}, {show(st.b, 40)}); cannot decide [{rule}-IST]")
+            continue
         r.rep.ob(rule + "-IST", q, sa == seqs and sb == seqs, "positions reported in Hamming mode refer to the original input order (IST-5)", where,
                  expected=f"positions in {show(seqs, 30)}", found=f"({show(sa, 50)}, {show(sb, 50)})", key="bucket positions")
         # the distance component passes through unchanged from the same local triplet
@@ -1321,7 +1350,10 @@ def check_buckets(r, rule):
     bq = MOD + "_to_len_bucket"
     bs = nn.summary(bq)
     mi = nn._map_local(bq, bs.ret) if head(bs.ret) == "alloc" else None
-    r.rep.ob(rule + "-BKT", bq, mi is not None and mi["key"] == ("len",), "buckets are keyed by len(seq) and hold positions of the input", wh(r, bq, bs.func.node),
+    if mi is None:
+        r.rep.require(False, f"{bq}: the way the length buckets are filled is outside the idiom list; cannot decide [{rule}-BKT]")
+    else:
+      r.rep.ob(rule + "-BKT", bq, mi is not None and mi["key"] == ("len",), "buckets are keyed by len(seq) and hold positions of the input", wh(r, bq, bs.func.node),
              expected="ans[len(seq)].append(index) over enumerate(seqs)", found=str(mi and (mi["key"], show(mi["space"], 30))), key="bucket key")
     if mi is not None:
         ins = [e for e in bs.events if e.kind == "call" and is_mcall(e["term"], "append")]
@@ -1458,7 +1490,8 @@ def _coo_ok(r, rule, nn, s, call, trip, seqs, seqs2, where):
         eq = Equiv()
         from ..cond import compare_trees
         from ..rules import lift_ite
-        m, _ = compare_trees(lift_ite(strip_all(shape)), lift_ite(want), lambda a, b: strip_all(a) == strip_all(b))
+        from ..rules import small_rewrites as _small
+        m, _ = compare_trees(lift_ite(rewrite(strip_all(shape), _small)), lift_ite(want), lambda a, b: strip_all(a) == strip_all(b))
         ok_shape = not m
     r.rep.ob(rule, q, ok_shape, "shape is (len(seqs), len(seqs2)), square when no second collection is given", where,
              expected="(len(seqs), len(seqs)) if seqs2 is None else (len(seqs), len(seqs2))", found=show(shape, 100) if shape else "no shape argument", key="coo shape")
@@ -1818,7 +1851,7 @@ def check_pool(r, rule):
              wh(r, q, st.node), expected="(seqs, max_edits, limit, custom_distance, max_cust_dist)", found=str([nn.R.block.get(k) for k in range(nslots)]), key="block slots")
     # ---- WHO
     allowed = {MOD + "_cal_levenshtein", MOD + "_cal_custom_dist"}
-    r.rep.ob(rule + "-WHO", q, readers <= allowed, "the block is read only by the two workers", where, expected=str(sorted(allowed)), found=str(sorted(readers)), key="block readers")
+    r.rep.ob(rule + "-WHO", q, readers - {q} <= allowed, "the block is read only by the two workers (and by the function that has just written it)", where, expected=str(sorted(allowed)), found=str(sorted(readers)), key="block readers")
     from ..rules import baseline_owners
     writers = {o for fq in nn.P.functions if fq.startswith(MOD) and any(e["name"] == "_cal_params" for e in nn.summary(fq).events_of("gstore")) for o in baseline_owners(r, fq)}
     r.rep.ob(rule + "-WHO", q, writers == {q}, "the block is written only by _to_triplets", where, expected=q, found=str(sorted(writers)), key="block writers")
